@@ -1,8 +1,9 @@
 /-
   C09 — the vector runtime agrees with the sequential runtime and never crashes the query;
   adding / removing vector copies never changes a result.
-  Property theorems only.  Model: Zed/Model/VecOps.lean (+ the column model of C03);
-  lemmas: Zed/Proofs/VecOps.lean; tables: Zed.Generated.C09 / C03, regenerated from /repo
+  Property theorems only.  Models: Zed/Model/VecOps.lean (+ the column model of C03) for the
+  aggregate operators, Zed/Model/VecExpr.lean for the expression evaluators and the streaming
+  operators; lemmas: Zed/Proofs/VecOps.lean, Zed/Proofs/VecExpr.lean; tables: Zed.Generated.C09 / C03, regenerated from /repo
   (runtime/vam/op/agg.go, compiler/optimizer/vam.go, compiler/kernel/vop.go, vexpr.go,
   runtime/vcache/*.go, vector/*.go) on every check.
 
@@ -10,11 +11,15 @@
       countby_agree : ∀ objs, (cbRun objs).map cbRows ≈ seqCountBy (values objs)
       sum_agree     : ∀ objs, sumRun objs = seqSum (values objs)
       vam_total     : every vector kind the loader can hand to an operator is handled
+      vexpr_agree   : ∀ batch e, the vector evaluator's slots = the sequential values
+      vop_agree     : ∀ batch ops, runV ops = runS ops
   are FALSE of the current code.  Below: their negations on concrete witnesses (each replayed
   on the real code by the harness and recorded as a known finding), and the `_partial`
   theorems under explicit guards.
 -/
 import Zed.Proofs.VecOps
+import Zed.Proofs.VecExpr
+import Zed.Proofs.VecCacheLock
 namespace Zed.Props.C09
 open Zed.Vec Zed.Vng Zed.Generated.C09
 
@@ -43,7 +48,47 @@ theorem modelled_sources_unchanged : pinnedSources =
    ("compiler/job.go:Job.Parallelize", "cebc14195165"),
    ("runtime/vam/op/scan.go:Scanner.run", "9ec29dd02c94"),
    ("runtime/vcache/loader.go:loader.loadDict", "ffafd58ea306"),
-   ("runtime/vcache/loader.go:loader.loadPrimitive", "5300522c4557")] := rfl
+   ("runtime/vcache/loader.go:loader.loadPrimitive", "5300522c4557"),
+   ("runtime/vam/expr/arith.go:Arith.eval", "c7e8c90723d6"),
+   ("runtime/vam/expr/compare.go:Compare.eval", "ed1fe4caeb04"),
+   ("runtime/vam/expr/logic.go:Not.Eval", "870c255499ea"),
+   ("runtime/vam/expr/logic.go:And.Eval", "6ddbd6a889a5"),
+   ("runtime/vam/expr/logic.go:Or.Eval", "e0fff13b78cc"),
+   ("runtime/vam/expr/logic.go:EvalBool", "ad8d684d9a8c"),
+   ("runtime/vam/expr/coerce.go:coerceVals", "a93a6050251c"),
+   ("runtime/vam/expr/literal.go:Literal.Eval", "55c91f408b68"),
+   ("runtime/vam/expr/genarithfuncs.go:genFunc", "e8dea43fd443"),
+   ("runtime/vam/expr/genarithfuncs.go:genLoop", "116f8492a68b"),
+   ("runtime/vam/expr/genarithfuncs.go:genExpr", "02ad52266d9e"),
+   ("runtime/vam/expr/gencomparefuncs.go:genFunc", "f6b138ec591e"),
+   ("runtime/vam/expr/gencomparefuncs.go:genExpr", "02ad52266d9e"),
+   ("runtime/vam/op/filter.go:Filter.Pull", "9fbb4b22146d"),
+   ("runtime/vam/op/filter.go:applyMask", "457248fdfe1d"),
+   ("runtime/vam/op/head.go:Head.Pull", "2a807483785e"),
+   ("runtime/vam/op/tail.go:Tail.tail", "f5611f98bfd2"),
+   ("runtime/vam/op/yield.go:Yield.Pull", "69883acb0d1d"),
+   ("vector/kind.go:FormOf", "f218a58f7597"),
+   ("vector/kind.go:KindOf", "c5f37c2071b8"),
+   ("vector/bool.go:BoolValue", "f6d61cd485a7"),
+   ("vector/view.go:View.Serialize", "394725c7ab0e"),
+   ("runtime/sam/expr/eval.go:Compare.Eval", "1d49fb67207b"),
+   ("runtime/sam/expr/eval.go:Add.Eval", "0d41cc1d90a7"),
+   ("runtime/sam/expr/eval.go:And.Eval", "2b6a403f0c4a"),
+   ("runtime/sam/expr/eval.go:Or.Eval", "7bc825111a2f"),
+   ("runtime/sam/expr/eval.go:Not.Eval", "a24182ca581a"),
+   ("runtime/sam/expr/coerce/coerce.go:Equal", "ab56a96fb8cd"),
+   ("runtime/sam/expr/eval.go:Equal.Eval", "7ed2fff5f23a"),
+   ("runtime/sam/expr/boolean.go:Comparison", "a023a3f014db"),
+   ("runtime/sam/expr/boolean.go:comparison", "3eb80f3cfdc5"),
+   ("runtime/sam/expr/boolean.go:CompareBool", "3a2960257ae4"),
+   ("runtime/sam/expr/boolean.go:CompareInt64", "24a39fffbdc7"),
+   ("runtime/sam/expr/boolean.go:CompareString", "51445f184563"),
+   ("runtime/sam/expr/filter.go:filter.Eval", "dc43ce98549e"),
+   ("compiler/kernel/expr.go:Builder.compileConstCompare", "2e6bdb119022"),
+   ("compiler/kernel/op.go:Builder.evalAtCompileTime", "f7c8b332f901"),
+   ("runtime/vcache/cache.go:Cache.lock", "9c3bc0df1886"),
+   ("runtime/vcache/cache.go:Cache.unlock", "af4d98381415"),
+   ("runtime/vcache/cache.go:Cache.Fetch", "25742982a2bb")] := rfl
 
 /-- `Optimizer.Vectorize`: sequences shorter than two operators are left alone; the scan must
     have vectors for every object; only `count() by <field>` and `sum(<field>)` directly after
@@ -198,5 +243,198 @@ theorem vectorize_transparent_partial (xs : List Bytes) (f f' : List Bool) :
 theorem not_vectorize_transparent :
     (lakeCountBy [false] [[.col (.prim 9) [.prim [2], .prim [4]]]]).toBool = true ∧
     (lakeCountBy [true] [[.col (.prim 9) [.prim [2], .prim [4]]]]).toBool = false := by decide
+
+/-! ## the expression evaluators and the streaming operators (Zed/Model/VecExpr.lean) -/
+
+section VExprSection
+open Zed.VExpr
+
+/-- T1: the kinds the generated arithmetic / comparison function tables cover, the kinds
+    `vector.FormOf` knows (no Bool: comparing two Boolean vectors is "incompatible types"), and
+    the operators `compiler/kernel/vexpr.go` compiles — as the model assumes. -/
+theorem expr_dispatch_as_modelled :
+    arithFuncKinds = ["Int", "Uint", "Float", "String"] ∧
+    compareFuncKinds = ["Int", "Uint", "Float", "String", "Bytes"] ∧
+    formFlatKinds = ["Int", "Uint", "Float", "Bytes", "String", "TypeValue"] ∧
+    "Bool" ∉ formFlatKinds ∧
+    vamBinaryOps = ["and", "or", "==", "!=", "<", "<=", ">", ">=", "+", "-", "*", "/", "%"] ∧
+    vamUnaryOps = ["!"] := by
+  refine ⟨rfl, rfl, rfl, by decide, rfl, rfl⟩
+
+/-- **vexpr_agree_partial.**  For every batch whose columns have the batch length, every
+    expression of the modelled subset (field access, int / string literals, + - * / %, the six
+    comparisons, and / or / !) that reads only null-free columns: if the vector evaluator
+    returns a value vector (it did not panic and did not produce an error vector), that vector
+    has one slot per row, an all-clear null bitmap, and serialises at every slot to exactly the
+    value the sequential evaluator computes for that row — whatever form (flat, dictionary,
+    const) the column statistics gave the operand vectors. -/
+theorem vexpr_agree_partial (b : Batch) (hwf : b.WF) (e : Expr) (v : XV)
+    (hnf : NullFree b e = true) (h : evalX b e = .ok v) (hv : v.isVal = true) :
+    v.len = b.n ∧ (∀ k, v.nulls.getD k false = false) ∧ ∀ k, k < b.n → v.at k = evalS b k e :=
+  let g := evalX_good b hwf e v hnf h hv
+  ⟨g.len, g.clear, g.atk⟩
+
+/-- `yield <expr>` straight after the scan emits what the sequential `yield` emits. -/
+theorem vyield_agree_partial (b : Batch) (hwf : b.WF) (e : Expr) (v : XV) (rest : List Op)
+    (hnf : NullFree b e = true) (h : evalX b e = .ok v) (hv : v.isVal = true) :
+    runV (.yieldE e :: rest) { batch := b } = .ok (runS b (.yieldE e :: rest) (List.range b.n)) :=
+  vyield_agree b hwf e v rest hnf h hv
+
+/-- `where <expr>` straight after the scan, followed by any number of `head` / `tail`, emits the
+    rows the sequential pipeline emits, in the same order (all three branches of `Filter.Pull`:
+    nothing kept, everything kept, a `vector.View` of the kept slots). -/
+theorem vfilter_agree_partial (b : Batch) (hwf : b.WF) (e : Expr) (v : XV) (rest : List Op)
+    (hnf : NullFree b e = true) (h : evalX b e = .ok v) (hv : v.isVal = true)
+    (hrest : rest.all Op.plain = true) :
+    runV (.filter e :: rest) { batch := b } = .ok (runS b (.filter e :: rest) (List.range b.n)) :=
+  vfilter_agree b hwf e v rest hnf h hv hrest
+
+/-- any sequence of `head` / `tail`, from any state (a view or not), emits the sequential rows:
+    these operators never fail and never look at values or null bitmaps. -/
+theorem vheadtail_agree (rest : List Op) (s : VState) (h : rest.all Op.plain = true) :
+    runV rest s = .ok (runS s.batch rest s.slots) := runV_plain rest s h
+
+/-! ### the unguarded statements are false: witnesses (each replayed by the harness and recorded
+    as a known finding `C09:vexpr:*` / `C09:vop:field-access-on-view`) -/
+
+private def cA : VExpr.Bytes := [97]
+private def cP : VExpr.Bytes := [112]
+private def cQ : VExpr.Bytes := [113]
+
+/-- {a:5} {a:7} {a:null} {a:5}: a dictionary vector; selector 0 at the null slot. -/
+def xDictNull : Batch := { n := 4, cols := [(cA, .int [some 5, some 7, none, some 5])] }
+/-- {a:5} {a:null}: a Const vector. -/
+def xConstNull : Batch := { n := 2, cols := [(cA, .int [some 5, none])] }
+def xOne : Batch := { n := 1, cols := [(cA, .int [some 5])] }
+def xBools : Batch := { n := 2, cols := [(cP, .bool [none, some true]), (cQ, .bool [some true, some true])] }
+def xZero : Batch := { n := 2, cols := [(cA, .int [some 0, some 1])] }
+
+theorem xWitnesses_wf : xDictNull.WF ∧ xConstNull.WF ∧ xOne.WF ∧ xBools.WF ∧ xZero.WF := by
+  refine ⟨?_, ?_, ?_, ?_, ?_⟩ <;> (intro p hp; simp [xDictNull, xConstNull, xOne, xBools, xZero] at hp) <;>
+    (first | (rcases hp with rfl | rfl <;> rfl) | (subst hp; rfl))
+
+/-- arithmetic ignores the null bitmap: `a+1` at the null slot is 6 (dictionary: the entry of
+    selector 0; const: the constant) with a clear null bit, sequentially null+1 = 1. -/
+theorem not_vexpr_agree_arith_null :
+    (evalX xDictNull (.arith .add (.field cA) (.litInt 1))).toOption.map (fun v => (List.range 4).map v.at)
+        = some [.int 6, .int 8, .int 6, .int 6] ∧
+    (List.range 4).map (fun k => evalS xDictNull k (.arith .add (.field cA) (.litInt 1)))
+        = [.int 6, .int 8, .int 1, .int 6] ∧
+    (evalX xConstNull (.arith .add (.field cA) (.litInt 1))).toOption.map (fun v => (List.range 2).map v.at)
+        = some [.int 6, .int 6] ∧
+    (List.range 2).map (fun k => evalS xConstNull k (.arith .add (.field cA) (.litInt 1)))
+        = [.int 6, .int 1] := by decide
+
+/-- comparisons ignore the null bitmap: `a==5` is true at the null slot, sequentially false. -/
+theorem not_vexpr_agree_compare_null :
+    (evalX xDictNull (.cmp .eq (.field cA) (.litInt 5))).toOption.map (fun v => (List.range 4).map v.at)
+        = some [.bool true, .bool false, .bool true, .bool true] ∧
+    (List.range 4).map (fun k => evalS xDictNull k (.cmp .eq (.field cA) (.litInt 5)))
+        = [.bool true, .bool false, .bool false, .bool true] := by decide
+
+/-- hence the guard of `vexpr_agree_partial` cannot be dropped. -/
+theorem not_vexpr_agree :
+    ¬ ∀ (b : Batch) (e : Expr) (v : XV), b.WF → evalX b e = .ok v → v.isVal = true →
+        ∀ k, k < b.n → v.at k = evalS b k e := by
+  intro h
+  have := h xDictNull (.cmp .eq (.field cA) (.litInt 5)) _ xWitnesses_wf.1 rfl rfl 2 (by decide)
+  revert this
+  decide
+
+/-- the logical operators reject a Const operand: `!(a==5)` over the single record {a:5} is
+    error("not type bool"), sequentially false. -/
+theorem not_vexpr_logic_const :
+    (evalX xOne (.not (.cmp .eq (.field cA) (.litInt 5)))).toOption.map (fun v => v.at 0)
+        = some (.err "not type bool") ∧
+    evalS xOne 0 (.not (.cmp .eq (.field cA) (.litInt 5))) = .bool false := by decide
+
+/-- the logical operators copy the left null bitmap: `p or q` with p null, q true is null,
+    sequentially true. -/
+theorem not_vexpr_logic_null :
+    (evalX xBools (.or (.field cP) (.field cQ))).toOption.map (fun v => (List.range 2).map v.at)
+        = some [.null .bool, .bool true] ∧
+    (List.range 2).map (fun k => evalS xBools k (.or (.field cP) (.field cQ)))
+        = [.bool true, .bool true] := by decide
+
+/-- two Boolean vectors cannot be compared: `q==q` is error("incompatible types"),
+    sequentially true. -/
+theorem not_vexpr_compare_bool :
+    (evalX xBools (.cmp .eq (.field cQ) (.field cQ))).toOption.map (fun v => (List.range 2).map v.at)
+        = some [.err "incompatible types", .err "incompatible types"] ∧
+    (List.range 2).map (fun k => evalS xBools k (.cmp .eq (.field cQ) (.field cQ)))
+        = [.bool true, .bool true] := by decide
+
+/-- a zero divisor at any slot panics the vector evaluator (the whole query), where the
+    sequential evaluator yields error("divide by zero") for that row only. -/
+theorem not_vexpr_total :
+    evalX xZero (.arith .div (.litInt 1) (.field cA)) = .error "runtime error: integer divide by zero" ∧
+    (List.range 2).map (fun k => evalS xZero k (.arith .div (.litInt 1) (.field cA)))
+        = [.err "divide by zero", .int 1] := ⟨rfl, by decide⟩
+
+/-- after `head` / `where` kept part of a batch, field accesses see nothing: `head 1 | yield a`
+    emits error("missing"), and a second `where a==1` keeps nothing. -/
+theorem not_vop_agree_on_view :
+    runV [.head 1, .yieldE (.field cA)] { batch := xZero } = .ok [.val (.err "missing")] ∧
+    runS xZero [.head 1, .yieldE (.field cA)] (List.range 2) = [.val (.int 0)] ∧
+    runV [.filter (.cmp .eq (.field cA) (.litInt 1)), .filter (.cmp .eq (.field cA) (.litInt 1))] { batch := xZero } = .ok [] ∧
+    runS xZero [.filter (.cmp .eq (.field cA) (.litInt 1)), .filter (.cmp .eq (.field cA) (.litInt 1))] (List.range 2) = [.row 1] :=
+  ⟨rfl, by decide, rfl, by decide⟩
+
+end VExprSection
+
+/-! ## the lock protocol of the vector cache (Zed/Model/VecCacheLock.lean) -/
+
+section CacheLockSection
+open Zed.VecCacheLock
+
+/-- T1: the order of the lock operations in `Cache.lock`, `Cache.unlock` and `Cache.Fetch` is the
+    one the model's programs (`lockReleased`, `unlockOps`, `fetchOps`) spell out: since /repo
+    f9684f0a8 `lock` releases `c.mu` BEFORE it blocks on the object mutex. -/
+theorem cache_lock_order_as_modelled :
+    cacheLockLockOps = ["c.mu.Lock", "c.mu.Unlock", "mu.Lock"] ∧
+    cacheUnlockLockOps = ["c.mu.Lock", "c.locks[id].Unlock", "c.mu.Unlock"] ∧
+    cacheFetchLockOps = ["c.mu.Lock", "c.mu.Unlock", "c.lock", "defer c.unlock", "c.mu.Lock",
+      "c.mu.Unlock", "NewObject", "c.mu.Lock", "c.mu.Unlock"] := ⟨rfl, rfl, rfl⟩
+
+/-- the finite reachability check behind the next theorem. -/
+theorem vcache_reach_closed :
+    (let ss := reach (fetchOps lockReleased) 64 [init] [init]
+     ss.contains init && closed (fetchOps lockReleased) ss
+       && !ss.any (deadlocked (fetchOps lockReleased))) = true := by decide +kernel
+
+/-- **vcache_fetch_deadlock_free.**  With the current order of lock operations no schedule of
+    two goroutines that run the slow path of `Cache.Fetch` for the same object reaches a state
+    in which nobody can move while somebody has work left. -/
+theorem vcache_fetch_deadlock_free (sched : List Bool) (s : St)
+    (h : run (fetchOps lockReleased) sched init = some s) :
+    deadlocked (fetchOps lockReleased) s = false := by
+  have hk := vcache_reach_closed
+  simp only [Bool.and_eq_true, Bool.not_eq_true'] at hk
+  obtain ⟨⟨hinit, hclosed⟩, hnone⟩ := hk
+  have hmem := run_mem _ _ hclosed sched init s hinit h
+  have hmem' : s ∈ reach (fetchOps lockReleased) 64 [init] [init] := by simpa using hmem
+  cases hd : deadlocked (fetchOps lockReleased) s with
+  | false => rfl
+  | true =>
+    have : (reach (fetchOps lockReleased) 64 [init] [init]).any (deadlocked (fetchOps lockReleased)) = true :=
+      List.any_eq_true.mpr ⟨s, hmem', hd⟩
+    rw [this] at hnone
+    cases hnone
+
+/-- non-vacuity: complete runs of both goroutines exist. -/
+example : ∃ sched, (run (fetchOps lockReleased) sched init).map (finished (fetchOps lockReleased)) = some true :=
+  ⟨List.replicate 12 false ++ List.replicate 12 true, by decide +kernel⟩
+
+/-- the order of operations matters: with the order `Cache.lock` had before /repo f9684f0a8
+    (`lockHeld`: the deferred `c.mu.Unlock()` ran after `mu.Lock()`) goroutine 0 takes the object
+    mutex and releases `c.mu`; goroutine 1 enters `lock`, takes `c.mu` and blocks on the object
+    mutex; goroutine 0 then blocks on `c.mu` for its second probe.  Nobody can move, and `c.mu`
+    stays held (finding `C09:lake:vcache-fetch-deadlock`, fixed; it was observed on the real
+    code as lake queries ending in "context deadline exceeded" with exactly these stacks). -/
+theorem not_vcache_fetch_deadlock_free_old_order :
+    ∃ sched : List Bool, (run (fetchOps lockHeld) sched init).map (deadlocked (fetchOps lockHeld)) = some true :=
+  ⟨[false, false, false, false, false, true, true, true], by decide +kernel⟩
+
+end CacheLockSection
 
 end Zed.Props.C09
